@@ -172,7 +172,21 @@ class Exploration:
                 buckets[d] = None
 
 
-def stall_sweep(exe, argv, on_result, deadline, env=None, timeout=120, policy=0, workers=None, stride=1):
+def app_thread_points(exe, argv, env=None, timeout=120, policy=0):
+    """decision points of the canonical schedule at which thread 0 (the application thread) is the one to run"""
+    fd, tf = tempfile.mkstemp(prefix="t0", dir=os.path.join(vlib.BUILD, "work"))
+    os.close(fd)
+    e = dict(env or {})
+    e["VS_T0POINTS"] = tf
+    run_schedule(exe, argv, [], e, timeout, policy=policy)
+    try:
+        pts = [int(l) for l in open(tf).read().split()]
+    finally:
+        os.unlink(tf)
+    return pts
+
+
+def stall_sweep(exe, argv, on_result, deadline, env=None, timeout=120, policy=0, workers=None, stride=1, only_points=None):
     """Every schedule with exactly one stall point: for each decision point p of the canonical schedule the thread running at p
     is made arbitrarily slow from p on (VS_STALL=p).  Returns dict(executions, transitions, points, complete, trace_hashes)."""
     base = run_schedule(exe, argv, [], env, timeout, policy=policy)
@@ -181,7 +195,7 @@ def stall_sweep(exe, argv, on_result, deadline, env=None, timeout=120, policy=0,
     st = {"executions": 1, "transitions": npts, "points": npts, "complete": True, "trace_hashes": set(), "stride": stride}
     if base["rc"] != 0:
         return st
-    todo = iter(range(0, npts, stride))
+    todo = iter(range(0, npts, stride) if only_points is None else [p for p in only_points if p < npts])
     with concurrent.futures.ThreadPoolExecutor(workers or vlib.NCPU) as ex:
         pending, exhausted = set(), False
         while True:
